@@ -16,7 +16,7 @@ def run(tier, cmd):
                 explanation='Exhaustive over the abstract state space (fixpoint). Each cell compares every field of the reported message '
                             '(channel, number = 128 x MSB + LSB, value, registered flag, resolution, data type) with the reference by bit '
                             'provenance / constants; non-reporting cells must report nothing.')
-    Fs = load_configs(chk, ['K1'] + (['K2'] if tier == 'thorough' else []), required=('K1',))
+    Fs = load_configs(chk, ['K1', 'K2'], required=('K1',))
     for cfg, F in sorted(Fs.items()):
         r = guarded(chk, '%s/product/%s' % (PID, cfg), 'product with the reference automaton',
                     lambda F=F: scanners.cell_obligations(chk, F, 'pn', 'product with the reference automaton'))
